@@ -355,8 +355,10 @@ def gen_ops(rng, isa, nk, tier, faults=True):
                     p["start_after"] = {"proc": rng.randrange(i), "mut": rng.choice([1, 2, 3, 5, 8, 12])}
                 procs_.append(p)
             ops.append({"op": "run_group", "procs": procs_})
-        elif r < 0.55:
+        elif r < 0.53:
             ops.append({"op": "edit_model", "kind": rng.choice(["semantic", "semantic", "header", "comment"])})
+        elif r < 0.55:
+            ops.append({"op": "edit_isa"})
         elif r < 0.67:
             ops.append({"op": "plant", "which": rng.choice(["model", "isa"]), "where": rng.choice(["companion", "home"]),
                         "kind": rng.choice(["cut_zero", "cut_header", "cut_mid", "cut_lastbyte", "foreign_version", "valid"])})
@@ -397,6 +399,8 @@ def template_histories(rng, nk):
         "cold_warm_warm": [run(), run(), run(2)],
         "racing_cold_then_warm": [run(rng.choice([2, 3, 4])), run()],
         "home_cache_readonly_dir": [ro, run(), run(), sem, run(), run()],
+        "racing_cold_home_cache": [ro, run(rng.choice([2, 3, 4])), run(), sem, run(2), run()],
+        "isa_file_rehashed": [run(), {"op": "edit_isa"}, run(2), ro, {"op": "edit_isa"}, run(2), run()],
         "home_cache_then_writable": [ro, run(), rw, run(), sem, ro, run(), run()],
         "shipped_cache_in_pkg_dir": [{"op": "plant", "which": "model", "where": "companion", "kind": "valid"},
                                      {"op": "plant", "which": "isa", "where": "companion", "kind": "valid"}, ro, run(), sem, run(), run()],
@@ -685,6 +689,12 @@ class Episode:
                 elif kind == "edit_model":
                     self.prev_ref_model = self.m.effective_model_text()
                     self.apply_edit(op["kind"])
+                elif kind == "edit_isa":
+                    # comment-only edit of the ISA description: new hash, same meaning
+                    self.isa_k = getattr(self, "isa_k", 0) + 1
+                    self.isa_text = self.isa_text + "# comment-only edit %d\n" % self.isa_k
+                    self.m.write(self.m.isa_path, self.isa_text)
+                    self.agg.stats["op_edit_isa_comment"] += 1
                 elif kind == "plant":
                     self.plant(op)
                 elif kind == "set_writable":
